@@ -112,7 +112,37 @@ def slotref(run, vm):
 
 
 # ----------------------------------------------------------------------------------------- USERATTR
+def mapindex(run, fx):
+    """the slot map is indexed from a bytecode-supplied attach.to value in Slot::setAttr: the index must be non-negative (an unsigned
+    value, or a dominating `>= 0`) and below map.size() at every map[...] there"""
+    from .cfg import int_type
+    sa = fx.one('graphite2::Slot::setAttr')
+    sites = [e for e in calls_in(sa, 'graphite2::SlotMap::operator[]') if e.get('args')]
+    if not sites:
+        run.broken('USERATTR', 'attach.to slot-map index', 'Slot::setAttr no longer indexes the slot map', sa.where())
+        return
+    for e in sites:
+        a = sa.N(e['args'][-1])
+        n = sa.strip(a)
+        while n['k'] == 'ImplicitCastExpr' and n.get('c'):
+            n = sa.strip(n['c'][0])
+        src = sa.deref(n)              # a const local stands for its initialiser
+        it = int_type((n.get('t') or '').replace('const ', ''))
+        txt = sa.render(n)
+        fs = [f[:3] for f in dom.facts_at(sa, e['i'])]
+        nonneg = (it is not None and it[1] is False) or any(dom.implies(f, (txt, '>=', '0')) for f in fs)
+        upper = any(f[0] == txt and f[1] == '<' and 'size()' in f[2] for f in fs)
+        inst = 'attach.to slot-map index @%s' % e['ln']
+        if nonneg and upper:
+            run.held('USERATTR', inst, sa.loc(e), 'map[%s]: %s, and %s < map.size()' % (txt, 'unsigned' if it and it[1] is False else 'dominated by >= 0', txt))
+        else:
+            run.violated('USERATTR', inst, sa.loc(e), 'Slot::setAttr indexes the slot map with `%s` (%s) %s: a negative attach.to value taken from the bytecode indexes '
+                         'below the start of the slot map' % (txt, n.get('t'), 'without a lower bound' if not nonneg else 'without the `< map.size()` test'),
+                         {'facts': fs})
+
+
 def userattr(run, fx):
+    mapindex(run, fx)
     sa = fx.one('graphite2::Slot::setAttr')
     stores = []
     for _, e in sa.elements():
@@ -339,21 +369,18 @@ def const_(run, vm):
         run.held('CONST', 'runFSM free_slots init', rf.where(), 'free_slots = SlotMap::MAX_SLOTS', False)
     else:
         run.violated('CONST', 'runFSM free_slots init', rf.where(), 'free_slots starts at %s, not SlotMap::MAX_SLOTS (%d)' % (rf.render(iv), ms))
-    pushes = calls_in(rf, 'graphite2::SlotMap::pushSlot')
-    # the loop back edge: the do-while condition block must be dominated by --free_slots != 0
-    backs = [b for b in rf.blocks if (rf.blocks[b].get('term') or {}).get('k') == 'DoStmt']
-    okb = False
-    for b in backs:
-        fs = dom.facts_at_block(rf, b)
-        if any('free_slots' in f[0] and f[1] == '!=' and f[2] == '0' for f in fs):
-            okb = True
-    # the push after the loop (sentinel) must also be dominated
-    if okb and len(pushes) == 2:
-        last = pushes[-1] if rf.pos_of[pushes[-1]['i']] >= 0 else pushes[0]
-        run.held('CONST', 'runFSM slot budget', rf.where(), 'loop repeats only while --free_slots != 0 (MAX_SLOTS pushes + 1 sentinel <= extent)')
+    # the number of pushSlot calls on any path through runFSM, computed from the constant-initialised counter (rules/constloop.py):
+    # SlotMap::pushSlot stores at m_slot_map[++m_size], m_size is 0 after reset, the array has MAX_SLOTS + 1 cells
+    from .constloop import max_calls
+    n = max_calls(rf, 'graphite2::SlotMap::pushSlot')
+    if n is not None and 1 <= n <= ms:
+        run.held('CONST', 'runFSM slot budget', rf.where(), 'at most %d pushSlot calls on any path (MAX_SLOTS = %d, extent %d)' % (n, ms, ms + 1))
+    elif n is None:
+        run.violated('CONST', 'runFSM slot budget', rf.where(), 'the number of pushSlot calls in Pass::runFSM is no longer bounded by the free_slots counter: a cyclic FSM and a '
+                     'long text overflow SlotMap::m_slot_map[%d]' % (ms + 1))
     else:
-        run.violated('CONST', 'runFSM slot budget', rf.where(), 'Pass::runFSM may call pushSlot more than MAX_SLOTS(+1) times: the loop is no '
-                     'longer cut by `--free_slots == 0` (%d pushSlot sites)' % len(pushes))
+        run.violated('CONST', 'runFSM slot budget', rf.where(), 'Pass::runFSM can call pushSlot %d times on one path; m_slot_map has MAX_SLOTS + 1 = %d cells and pushSlot '
+                     'writes m_slot_map[++m_size], so at most %d pushes fit: the last push overwrites the members that follow the array' % (n, ms + 1, ms))
     # accumulate_rules: every store through `out` is dominated by out != lrend, lrend = out + MAX_RULES
     ar = fx.one('graphite2::FiniteStateMachine::Rules::accumulate_rules')
     _, d = find_decl(ar, 'lrend')
